@@ -165,6 +165,9 @@ func (it *Interp) intrinsic(name string, fn *ssa.Function, a []Val) Val {
 	case "Note":
 		p.notes = append(p.notes, it.describe(a[0]))
 		return nil
+	case "Abstract":
+		it.abstracted[it.cstr(a[0], "function name")] = true
+		return nil
 	case "Override":
 		it.overrides[it.cstr(a[0], "override name")] = a[1].(IfaceV).V
 		return nil
@@ -264,7 +267,7 @@ func (it *Interp) intrinsic(name string, fn *ssa.Function, a []Val) Val {
 // autoModel handles calls without a model or body.
 func (it *Interp) autoModel(fn *ssa.Function, args []Val) (Val, bool) {
 	key := funcKey(fn)
-	if it.inInit > 0 || autoOpaque[key] {
+	if it.inInit > 0 || autoOpaque[key] || it.abstracted[key] {
 		it.ex.noteAuto(key)
 		res := fn.Signature.Results()
 		switch res.Len() {
